@@ -109,7 +109,8 @@ impl<'a> Reduced<'a> {
 
 impl ReducedWord {
     pub const fn one(ring: &ConstSingleDivisor) -> Self {
-        Self(1 << ring.shift())
+        // reduce the unit like any other value: in the ring of modulus 1 it is 0
+        Self(ring.rem_word(1))
     }
 
     #[inline]
